@@ -33,10 +33,18 @@ pub type Triple = (String, Option<String>, usize, usize);
 
 pub fn triple(s: &Symbol) -> Triple {
     let r = s.get_range();
-    (sym_kind(s).to_string(), s.get_name(), r.start.offset, r.end.offset)
+    let name = s.get_name();
+    if sym_kind(s) == "Arg" && name.is_none() {
+        // an unnamed argument has no name as written: no statement pins its (empty) name range
+        return ("Arg".to_string(), None, 0, 0);
+    }
+    (sym_kind(s).to_string(), name, r.start.offset, r.end.offset)
 }
 
-fn rtriple(s: &RefSym) -> Triple {
+pub fn rtriple(s: &RefSym) -> Triple {
+    if s.kind == "Arg" && s.name.is_none() {
+        return ("Arg".to_string(), None, 0, 0);
+    }
     (s.kind.clone(), s.name.clone(), s.start, s.end)
 }
 
@@ -157,9 +165,9 @@ pub fn check_case(case: &Case) -> CheckResult {
     if got_methods != want_methods {
         errs.push(format!("walk_methods yielded {got_methods:?}, expected {want_methods:?}"));
     }
-    let want_args: Vec<(usize, usize)> = all.iter().filter(|s| s.kind == "Arg").map(|s| (s.start, s.end)).collect();
+    let want_args: Vec<Option<String>> = all.iter().filter(|s| s.kind == "Arg").map(|s| s.name.clone()).collect();
     let mut got_args = Vec::new();
-    traverse::walk_args(tree, |_, a| got_args.push((a.symbol_range.start.offset, a.symbol_range.end.offset)));
+    traverse::walk_args(tree, |_, a| got_args.push(a.name.clone()));
     if got_args != want_args {
         errs.push(format!("walk_args yielded {} arguments, expected {}", got_args.len(), want_args.len()));
     }
